@@ -394,4 +394,265 @@ Section Fit.
         * rewrite Hord2. exact HC2.
         * rewrite Hord2, app_length. cbn [length]. lia.
   Qed.
+
+  (* ---------------- seeding the heap ---------------- *)
+
+  Variable nd0 : nodes.
+  Hypothesis Hst0 : n_status nd0 = st.
+  Hypothesis Hlab0 : n_label nd0 = lab0.
+  Hypothesis Hl_cost : length (n_cost nd0) = n.
+  Hypothesis Hl_pred : length (n_pred nd0) = n.
+  Hypothesis Hl_label : length (n_label nd0) = n.
+  Hypothesis Hl_plabel : length (n_plabel nd0) = n.
+  Hypothesis Hord0 : n_order nd0 = [].
+
+  Definition stb (k q : nat) : bool := (q <? k) && nth q st false.
+
+  Lemma stb_S k q : stb (S k) q = if Nat.eqb q k then nth k st false else stb k q.
+  Proof.
+    unfold stb. destruct (Nat.eqb_spec q k) as [->|Hne].
+    - destruct (Nat.ltb_spec k (S k)); [reflexivity|lia].
+    - destruct (Nat.ltb_spec q (S k)), (Nat.ltb_spec q k); try reflexivity; lia.
+  Qed.
+
+  Lemma stb_self k : stb k k = false.
+  Proof. unfold stb. destruct (Nat.ltb_spec k k); [lia|reflexivity]. Qed.
+
+  Record Seed (k : nat) (h : heap Z) (nd : nodes) : Prop := mkSeed {
+    s_inv : Inv h; s_size : hsize h = n; s_pol : hpol h = PMin;
+    s_cost : forall q, q < n -> hc h q = if stb k q then zero else top;
+    s_col : forall q, q < n -> col h q = if stb k q then Gray else White;
+    s_ncost : n_cost nd = n_cost nd0; s_label : n_label nd = lab0; s_status : n_status nd = st;
+    s_order : n_order nd = [];
+    s_lpred : length (n_pred nd) = n; s_lplabel : length (n_plabel nd) = n;
+    s_proto : forall q, stb k q = true ->
+        nth q (n_pred nd) None = None /\ nth q (n_plabel nd) 0 = nth q lab0 0 }.
+
+  Lemma seed_init : Seed 0 (h_init top n PMin) nd0.
+  Proof.
+    constructor; auto.
+    - apply inv_init.
+    - intros q Hq. unfold cost, h_init; cbn [hcost]. rewrite nth_repeat_any by exact Hq.
+      unfold stb. reflexivity.
+    - intros q Hq. unfold col, h_init; cbn [hcolor]. rewrite nth_repeat_any by exact Hq.
+      unfold stb. reflexivity.
+    - intros q Hq. unfold stb in Hq. cbn in Hq. discriminate.
+  Qed.
+
+  Lemma seed_step_spec k h nd : k < n -> Seed k h nd ->
+    Seed (S k) (fst (seed_step Z.ltb zero top (h, nd) k)) (snd (seed_step Z.ltb zero top (h, nd) k)).
+  Proof.
+    intros Hk HS. pose proof (s_inv _ _ _ HS) as HI. pose proof (s_size _ _ _ HS) as Hs.
+    assert (Hnq : ~ In k (queued h)).
+    { intros Hin. apply (inv_color h HI k ltac:(lia)) in Hin.
+      pose proof (s_col _ _ _ HS k Hk) as Ec. rewrite stb_self in Ec. unfold col in Ec. congruence. }
+    assert (Hlc : k < length (hcost h)) by (rewrite (inv_lcost h HI); lia).
+    unfold seed_step. rewrite (s_status _ _ _ HS).
+    destruct (nth k st false) eqn:Ek.
+    - pose proof (set_cost_nonqueued_inv top h k zero HI Hnq) as HIs.
+      pose proof (insert_spec top (set_cost h k zero) k HIs ltac:(cbn [set_cost hsize]; lia) Hnq
+                    (heap_room h k HI Hs Hk Hnq)) as X.
+      destruct (insert Z.ltb top (set_cost h k zero) k) as [h' b].
+      destruct X as (_ & A & _ & B & C & E & F). cbn [set_cost hcost hcolor hsize hpol] in B, C, E, F.
+      cbn [fst snd].
+      constructor; cbn [n_cost n_pred n_label n_plabel n_status n_relevant n_order]; try apply HS;
+        try reflexivity.
+      + exact A.
+      + rewrite E. exact Hs.
+      + rewrite F. apply HS.
+      + intros q Hq. rewrite (hc_upd h h' k zero B Hlc), stb_S, Nat.eqb_sym.
+        destruct (Nat.eqb_spec q k) as [->|_]; [rewrite Ek; reflexivity|]. apply HS; exact Hq.
+      + intros q Hq. unfold col. rewrite C, stb_S. destruct (Nat.eqb_spec q k) as [->|Hne].
+        * rewrite Ek. apply nth_upd_eq. rewrite (inv_lcolor h HI). lia.
+        * rewrite nth_upd_neq by congruence. apply (s_col _ _ _ HS); exact Hq.
+      + rewrite upd_length. apply HS.
+      + rewrite upd_length. apply HS.
+      + intros q Hq. rewrite stb_S in Hq. destruct (Nat.eqb_spec q k) as [Eq|Hne]; [subst q|].
+        * rewrite !nth_upd_eq by (rewrite ?(s_lpred _ _ _ HS), ?(s_lplabel _ _ _ HS); exact Hk).
+          rewrite (s_label _ _ _ HS). split; reflexivity.
+        * rewrite !nth_upd_neq by congruence. apply (s_proto _ _ _ HS); exact Hq.
+    - cbn [fst snd].
+      constructor; try apply HS; try reflexivity.
+      + apply set_cost_nonqueued_inv; assumption.
+      + intros q Hq. rewrite (hc_upd h (set_cost h k top) k top eq_refl Hlc), stb_S, Nat.eqb_sym.
+        destruct (Nat.eqb_spec q k) as [->|_]; [rewrite Ek; reflexivity|]. apply HS; exact Hq.
+      + intros q Hq. change (col (set_cost h k top) q) with (col h q). rewrite stb_S.
+        destruct (Nat.eqb_spec q k) as [->|_]; [|apply HS; exact Hq].
+        rewrite Ek. rewrite (s_col _ _ _ HS k Hk), stb_self. reflexivity.
+      + intros q Hq. rewrite stb_S in Hq. destruct (Nat.eqb_spec q k) as [Eq|_]; [congruence|].
+        apply (s_proto _ _ _ HS); exact Hq.
+  Qed.
+
+  Lemma seed_core h nd : Seed n h nd -> Core [] h nd.
+  Proof.
+    intros HS.
+    assert (Hstb : forall q, q < n -> stb n q = nth q st false).
+    { intros q Hq. unfold stb. destruct (Nat.ltb_spec q n); [reflexivity|lia]. }
+    assert (Hnp : forall q, q < n -> ~ proto q -> hc h q = top).
+    { intros q Hq Hnp. rewrite (s_cost _ _ _ HS q Hq), (Hstb q Hq). unfold proto in Hnp.
+      destruct (nth q st false); [congruence|reflexivity]. }
+    constructor; try apply HS; rewrite ?(s_order _ _ _ HS); cbn [In length].
+    - rewrite (s_ncost _ _ _ HS). exact Hl_cost.
+    - rewrite (s_label _ _ _ HS), <- Hlab0. exact Hl_label.
+    - intros q [].
+    - constructor.
+    - intros q Hq. rewrite (s_col _ _ _ HS q Hq). split; [|intros []].
+      destruct (stb n q); discriminate.
+    - intros q Hq. rewrite (s_col _ _ _ HS q Hq), (s_cost _ _ _ HS q Hq).
+      destruct (stb n q); split; intros; try discriminate; try reflexivity; lia.
+    - intros q Hq. rewrite (s_cost _ _ _ HS q Hq). destruct (stb n q); lia.
+    - intros p [].
+    - intros p q [].
+    - intros i j _ Hj. lia.
+    - intros s Hs Hpr. unfold proto in Hpr.
+      assert (E : stb n s = true) by (rewrite Hstb by exact Hs; exact Hpr).
+      rewrite (s_cost _ _ _ HS s Hs), E. split; [reflexivity|]. apply (s_proto _ _ _ HS); exact E.
+    - intros q Hq Hnpq Hlt. rewrite (Hnp q Hq Hnpq) in Hlt. lia.
+    - apply incl_refl.
+    - intros p q [].
+    - intros _. apply (s_label _ _ _ HS).
+    - intros q Hq _. rewrite (s_label _ _ _ HS). reflexivity.
+    - intros q Hq _ Hnpq Hlt. rewrite (Hnp q Hq Hnpq) in Hlt. lia.
+  Qed.
+
+  Notation ndF := (compete Z.ltb zero top semi n w nd0).
+
+  Lemma compete_core : exists h, Core (n_order ndF) h ndF /\ (forall q, q < n -> In q (n_order ndF)).
+  Proof.
+    unfold compete.
+    assert (HS : Seed n (fst (fold_left (seed_step Z.ltb zero top) (seq 0 n) (h_init top n PMin, nd0)))
+                       (snd (fold_left (seed_step Z.ltb zero top) (seq 0 n) (h_init top n PMin, nd0)))).
+    { apply (fold_seq_inv (seed_step Z.ltb zero top) (fun k a => Seed k (fst a) (snd a))).
+      - intros k [h nd] Hk HS. apply seed_step_spec; assumption.
+      - exact seed_init. }
+    destruct (fold_left (seed_step Z.ltb zero top) (seq 0 n) (h_init top n PMin, nd0)) as [h nd1].
+    cbn [fst snd] in HS. pose proof (seed_core h nd1 HS) as HC.
+    rewrite <- (s_order _ _ _ HS) in HC.
+    pose proof (fit_loop_spec n h nd1 HC ltac:(lia)) as HF. cbv zeta in HF.
+    exists (fst (fit_loop Z.ltb top n n semi w h nd1)). exact HF.
+  Qed.
+
+  (* ---------------- the results, stated on the final node table ---------------- *)
+
+  Notation costF q := (nth q (n_cost ndF) zero).
+  Notation predF q := (nth q (n_pred ndF) None).
+  Notation plabelF q := (nth q (n_plabel ndF) 0).
+
+  Theorem fit_order :
+    Permutation (n_order ndF) (seq 0 n) /\
+    (forall i j, i < j -> j < n ->
+       (costF (nth i (n_order ndF) 0%nat) <= costF (nth j (n_order ndF) 0%nat))%Z).
+  Proof.
+    destruct compete_core as (h & HC & Hall).
+    assert (Hperm : Permutation (n_order ndF) (seq 0 n)).
+    { apply perm_seq; [apply (c_order_nodup _ _ _ HC)|apply (c_order_lt _ _ _ HC)|exact Hall]. }
+    split; [exact Hperm|]. intros i j Hij Hj.
+    pose proof (Permutation_length Hperm) as Hlen. rewrite seq_length in Hlen.
+    rewrite !(c_ncost _ _ _ HC) by (apply nth_In; lia).
+    apply (c_sorted _ _ _ HC); lia.
+  Qed.
+
+  Theorem fit_forest :
+    (forall q, q < n -> proto q ->
+       predF q = None /\ costF q = zero /\ plabelF q = nth q lab0 0) /\
+    (forall q, q < n -> ~ proto q ->
+       exists p, predF q = Some p /\ p < n /\ p <> q /\
+         costF q = Z.max (costF p) (w p q) /\ plabelF q = plabelF p /\
+         before (n_order ndF) p q).
+  Proof.
+    destruct compete_core as (h & HC & Hall). split.
+    - intros q Hq Hpr. destruct (c_proto _ _ _ HC q Hq Hpr) as (A & B & C).
+      rewrite (c_ncost _ _ _ HC q (Hall q Hq)). auto.
+    - intros q Hq Hnp.
+      assert (Hlt : (hc h q < top)%Z).
+      { pose proof (c_range _ _ _ HC q Hq). destruct (Z.eq_dec (hc h q) top) as [E|E]; [|lia].
+        apply (c_white _ _ _ HC q Hq) in E. pose proof (proj2 (c_black _ _ _ HC q Hq) (Hall q Hq)).
+        congruence. }
+      destruct (c_link _ _ _ HC q Hq Hnp Hlt) as (p & A & B & C & E & F & G).
+      exists p. pose proof (c_order_lt _ _ _ HC p B) as Hp.
+      rewrite !(c_ncost _ _ _ HC) by (apply Hall; assumption).
+      repeat split; auto.
+  Qed.
+
+  Theorem fit_roots : forall q, q < n ->
+    exists r k pi, r < n /\ proto r /\ reaches (fun x => predF x) q r k /\ predF r = None /\
+      k < n /\ plabelF q = nth r lab0 0 /\
+      path_from_to n r q pi /\ pathmax w zero pi = costF q.
+  Proof.
+    destruct compete_core as (h & HC & Hall). destruct fit_forest as [FP FN].
+    pose proof (c_order_nodup _ _ _ HC) as Hnd.
+    assert (Hlen : length (n_order ndF) = n).
+    { rewrite (Permutation_length (proj1 fit_order)). apply seq_length. }
+    assert (G : forall i q, i < n -> nth i (n_order ndF) 0 = q ->
+      exists r k pi, r < n /\ proto r /\ reaches (fun x => predF x) q r k /\ predF r = None /\
+        k <= i /\ plabelF q = nth r lab0 0 /\
+        path_from_to n r q pi /\ pathmax w zero pi = costF q).
+    { induction i as [i IH] using lt_wf_ind. intros q Hi Hnth.
+      assert (Hq : q < n).
+      { apply (c_order_lt _ _ _ HC). rewrite <- Hnth. apply nth_In. lia. }
+      destruct (nth q st false) eqn:Est.
+      - destruct (FP q Hq Est) as (A & B & C).
+        exists q, 0, [q]. split; [exact Hq|]. split; [exact Est|]. split; [constructor|].
+        split; [exact A|]. split; [lia|]. split; [exact C|]. split.
+        + split; [split; [discriminate|constructor; [exact Hq|constructor]]|split; reflexivity].
+        + cbn. symmetry; exact B.
+      - assert (Hnp : ~ proto q) by (unfold proto; congruence).
+        destruct (FN q Hq Hnp) as (p & A & B & C & E & F & (i' & j' & Hij & Hj & Hni & Hnj)).
+        assert (j' = i) by (apply (NoDup_nth_inj (n_order ndF)); auto; try lia; congruence).
+        subst j'.
+        destruct (IH i' Hij p ltac:(lia) Hni) as
+          (r & k & pi & R1 & R2 & R3 & R4 & R5 & R6 & ((R7a & R7b) & R7c & R7d) & R8).
+        exists r, (S k), (pi ++ [q]). split; [exact R1|]. split; [exact R2|].
+        split; [eapply reaches_step; [exact A|exact R3]|]. split; [exact R4|].
+        split; [lia|]. split; [congruence|]. split.
+        + split; [split|split].
+          * destruct pi; discriminate.
+          * apply Forall_app. split; [exact R7b|constructor; [exact Hq|constructor]].
+          * destruct pi as [|x pi]; [congruence|exact R7c].
+          * apply last_last.
+        + rewrite (pathmax_snoc w zero pi q r R7a), R7d, R8. symmetry. exact E. }
+    intros q Hq. destruct (In_nth _ _ 0 (Hall q Hq)) as (i & Hi & Hnth).
+    destruct (G i q ltac:(lia) Hnth) as (r & k & pi & R1 & R2 & R3 & R4 & R5 & R6 & R7 & R8).
+    exists r, k, pi. split; [exact R1|]. split; [exact R2|]. split; [exact R3|].
+    split; [exact R4|]. split; [lia|]. split; [exact R6|]. split; [exact R7|exact R8].
+  Qed.
+
+  Theorem fit_lower_bound : forall q s pi, q < n -> s < n -> proto s ->
+    path_from_to n s q pi -> (costF q <= pathmax w zero pi)%Z.
+  Proof.
+    destruct compete_core as (h & HC & Hall).
+    intros q s pi Hq Hs Hpr ((Hne & Hfa) & Hhd & Hlast).
+    destruct pi as [|a t]; [congruence|]. cbn in Hhd. injection Hhd as ->.
+    pose proof (certificate_path n w zero (fun x => costF x)) as X. cbv beta in X.
+    assert (Hc : forall p q, p < n -> q < n -> p <> q ->
+               (costF q <= Z.max (costF p) (w p q))%Z).
+    { intros p0 q0 Hp0 Hq0 Hne0. rewrite !(c_ncost _ _ _ HC) by (apply Hall; assumption).
+      apply (c_cert _ _ _ HC); auto. }
+    specialize (X Hc t s Hfa). rewrite Hlast in X.
+    destruct (proj1 fit_forest s Hs Hpr) as (_ & E & _). rewrite E in X.
+    pose proof (pathmax_ge w zero (s :: t)). lia.
+  Qed.
+
+  Theorem fit_status_label :
+    n_status ndF = st /\ (semi = false -> n_label ndF = lab0) /\
+    (semi = true -> forall q, q < n ->
+       nth q (n_label ndF) 0 = if nth q st false then nth q lab0 0 else plabelF q).
+  Proof.
+    destruct compete_core as (h & HC & Hall).
+    split; [apply (c_status _ _ _ HC)|]. split; [apply (c_lab_f _ _ _ HC)|].
+    intros Hsemi q Hq. destruct (nth q st false) eqn:Est.
+    - apply (c_lab_a _ _ _ HC q Hq). left. exact Est.
+    - apply (c_lab_b _ _ _ HC q Hq Hsemi); [unfold proto; congruence|].
+      pose proof (c_range _ _ _ HC q Hq). destruct (Z.eq_dec (hc h q) top) as [E|E]; [|lia].
+      apply (c_white _ _ _ HC q Hq) in E. pose proof (proj2 (c_black _ _ _ HC q Hq) (Hall q Hq)).
+      congruence.
+  Qed.
+
+  Lemma fit_lengths :
+    length (n_cost ndF) = n /\ length (n_pred ndF) = n /\ length (n_label ndF) = n /\
+    length (n_plabel ndF) = n.
+  Proof.
+    destruct compete_core as (h & HC & _).
+    repeat split; apply HC.
+  Qed.
 End Fit.
